@@ -126,6 +126,39 @@ func dosFamilies(thorough bool) []dosFamily {
 			}
 			return mk(""), mk(" + n")
 		}},
+		{"nested-loops-starting-at-doubled-outer-variable", pick([]int{12, 20, 28}, []int{12, 20, 28, 48}), func(n int) (string, string) {
+			// every loop starts at i+i of the enclosing loop's variable: the closed form of level k
+			// mentions the closed form of level k-1 twice
+			mk := func(extra string) string {
+				var a strings.Builder
+				a.WriteString(hdr + "func F(n int) int {\n\ts := 0\n")
+				prev := "n"
+				for k := 0; k < n; k++ {
+					fmt.Fprintf(&a, "%sfor i%d := %s + %s; i%d < n; i%d++ {\n", strings.Repeat("\t", k+1), k, prev, prev, k, k)
+					prev = fmt.Sprintf("i%d", k)
+				}
+				fmt.Fprintf(&a, "%ss += %s%s\n", strings.Repeat("\t", n+1), prev, extra)
+				for k := n - 1; k >= 0; k-- {
+					fmt.Fprintf(&a, "%s}\n", strings.Repeat("\t", k+1))
+				}
+				a.WriteString("\treturn s\n}\n")
+				return a.String()
+			}
+			return mk(""), mk(" + n")
+		}},
+		{"sequential-loops-starting-at-tripled-previous", pick([]int{8, 14, 20}, []int{8, 14, 20, 40}), func(n int) (string, string) {
+			// loop k starts at three times the exit value of loop k-1's variable
+			mk := func(extra string) string {
+				var a strings.Builder
+				a.WriteString(hdr + "func F(n int) int {\n\ts := 0\n\ti0 := n\n\tfor ; i0 < n+3; i0++ {\n\t\ts += i0\n\t}\n")
+				for k := 1; k < n; k++ {
+					fmt.Fprintf(&a, "\ti%d := i%d + i%d + i%d\n\tfor ; i%d < n+%d; i%d++ {\n\t\ts ^= i%d\n\t}\n", k, k-1, k-1, k-1, k, k+3, k, k)
+				}
+				fmt.Fprintf(&a, "\treturn s%s\n}\n", extra)
+				return a.String()
+			}
+			return mk(""), mk(" + n")
+		}},
 		{"many-blocks", pick([]int{500, 2000, 2600}, []int{500, 2000, 2600, 6000}), func(n int) (string, string) {
 			mk := func(inc int) string {
 				var a strings.Builder
@@ -181,6 +214,7 @@ type dosReport struct {
 	Instructions int     `json:"instructions"`
 	Blocks       int     `json:"blocks"`
 	Oversized    int     `json:"oversized"`
+	IRBytes      int64   `json:"ir_bytes"`
 	EquivCalls   int64   `json:"equiv_calls"`
 	Bound        int64   `json:"bound"`
 	FingerprintS float64 `json:"fingerprint_s"`
@@ -253,6 +287,7 @@ func dosChild(args []string) {
 	t = time.Now()
 	for _, r := range resA {
 		rep.Functions++
+		rep.IRBytes += int64(len(r.CanonicalIR))
 		if diff.IsOversized(r.Fingerprint) {
 			rep.Oversized++
 		}
@@ -294,7 +329,7 @@ func dosChild(args []string) {
 }
 
 func suiteDos(c *Ctx) error {
-	c.Res.Rule = "adversarial families (identical operations on one value, identical operations in branches, doubling DAG inside a loop, doubling DAG feeding loop bounds, 10..120 nested loops, 500..6000 blocks incl. beyond MaxFunctionBlocks, phi rotation cycles, 64 KiB string literals, deep expressions) at 3 (thorough: 4) growing sizes, plus token-mutated generated sources; each case in a child process with a 90 s budget: FingerprintSource, ExtractTopology, Zipper(old, edited) with the areEquivalent counter (hook), cli.ComputeDiff; required: completion, no panic, counter <= 100*(referrer slots + blocks) + 2*min(100,|entry|)^2 (the bound of C17_propagate_cost evaluated on the real functions), OVERSIZED marker beyond the block cap; non-trivial = the function has at least 500 instructions; distinct by (family, size)"
+	c.Res.Rule = "adversarial families (identical operations on one value, identical operations in branches, doubling DAG inside a loop, doubling DAG feeding loop bounds, 10..120 nested loops, nested loops each starting at twice the enclosing loop's variable, sequential loops each starting at three times the previous loop's exit value, 500..6000 blocks incl. beyond MaxFunctionBlocks, phi rotation cycles, 64 KiB string literals, deep expressions) at 3 (thorough: 4) growing sizes, plus token-mutated generated sources; each case in a child process with a 90 s budget: FingerprintSource, ExtractTopology, Zipper(old, edited) with the areEquivalent counter (hook), cli.ComputeDiff; required: completion, no panic, counter <= 100*(referrer slots + blocks) + 2*min(100,|entry|)^2 (the bound of C17_propagate_cost evaluated on the real functions), canonical IR <= 16 KiB per instruction, OVERSIZED marker beyond the block cap; non-trivial = the function has at least 500 instructions; distinct by (family, size)"
 	self, _ := os.Executable()
 	budget := 90 * time.Second
 	run := func(name string, size int, srcA, srcB string) {
@@ -336,6 +371,11 @@ func suiteDos(c *Ctx) error {
 		}
 		if rep.EquivCalls > rep.Bound {
 			c.Violate("C17", "C17/equivalence-calls-exceed-bound:"+name, fmt.Sprintf("%s size %d: %d areEquivalent calls, bound %d (%d instructions)", name, size, rep.EquivCalls, rep.Bound, rep.Instructions), rp)
+		}
+		// the text of the canonical IR stays within a constant amount per instruction: an operand is a
+		// name, a literal or a closed form of at most MaxSCEVNodes (128) nodes
+		if irBound := int64(16384) * int64(rep.Instructions+rep.Blocks+16); rep.IRBytes > irBound {
+			c.Violate("C17", "C17/canonical-ir-size-exceeds-bound:"+name, fmt.Sprintf("%s size %d (%d bytes of source, %d instructions): %d bytes of canonical IR, bound %d", name, size, len(srcA), rep.Instructions, rep.IRBytes, irBound), rp)
 		}
 		if rep.Blocks > diff.MaxFunctionBlocks && rep.Oversized == 0 {
 			c.Violate("C17", "C17/oversized-not-rejected", fmt.Sprintf("%s size %d: %d blocks but no OVERSIZED marker", name, size, rep.Blocks), rp)
